@@ -111,6 +111,31 @@ CHECKS["C15"] = dict(
          "key for any insertion order and returns one aligned batch per network with an empty entry for networks without observations.",
     ref="DESIGN.md section 3 (C15)")
 
+CHECKS["C07"] = dict(
+    technique="symbolic evaluation of solve() with opaque loss/optimizer/generators/validation (while_loop intercepted): one iteration, continuation predicate, initial carry and returned values as uninterpreted terms compared with the textbook step",
+    text="Decides the wiring of ONE iteration for every combination of optional generators / validation / verbosity: next batch of "
+         "every generator (appended to the batch), loss and gradient at the current parameters on that batch, optimizer.update(grads, "
+         "state, params), apply_updates, histories at index i with post-update tracked parameters, advanced generators and new state "
+         "carried, counter + 1; continuation iff i < n_iter (and no NaN / early stop); the initial carry; the provenance of the nine "
+         "returned values; the sharded and jitted get_batch variants agree. Equality of whole histories with a reference loop for all "
+         "optimisers / programs / resumed runs needs iterating the step (other families) and is not claimed.",
+    ref="DESIGN.md section 3 (C07)")
+CHECKS["C18"] = dict(
+    technique="same symbolic one-iteration analysis of solve(); direct abstract evaluation of _check_nan_in_pytree on flat and nested parameter trees",
+    text="last_non_nan_params' = previous value if any leaf of the post-update parameters has a NaN else the post-update parameters; the "
+         "loop continues only if no leaf of the carried parameters has a NaN (so it stops right after the failing iteration); solve returns "
+         "last_non_nan_params (initially init_params); the NaN test is any-over-leaves of any(isnan); the failing iteration writes histories "
+         "at its own index with the reference values. Origins of the NaN (loss, gradient, update) all flow into the post-update parameters.",
+    ref="DESIGN.md section 3 (C18)")
+CHECKS["C19"] = dict(
+    technique="same symbolic one-iteration analysis of solve() with an opaque validation module; symbolic evaluation of ValidationLoss.__call__ with real-valued strict comparison",
+    text="Validation invoked iff i mod call_every == 0 with the post-update parameters; criterion recorded at i (carried forward from i-1 "
+         "otherwise, for every verbosity); early-stopping flag and best parameters follow the module; the loop stops on the flag. "
+         "ValidationLoss: strict improvement test against best_val_loss, counter reset / incremented, best updated, stop = (pre-update "
+         "counter == patience) and early_stopping switch, loss evaluated on its own next batches and all its generators written back. "
+         "Sequences of validation outcomes follow by iterating this step and are not enumerated here.",
+    ref="DESIGN.md section 3 (C19)")
+
 UNDER_CONSTRUCTION = "check under construction in this build round; not yet claimed"
 NA = {}
 
